@@ -415,6 +415,26 @@ def exhaustive(ctx):
                 compare(ctx, spell_tx.init_orig(spell.wb_from_form(f1)), spell_tx.init_orig(spell.wb_from_form(f2)),
                         [f"truth:settings:{col}:{plain[0]}->{v}"], "dict", tag="alias")
                 n += 1
+    # truth values, every pinned spelling incl. `true()` / `false()`, in the cells read through aliases.yes_no only
+    # (settings flags, legacy `disabled` column), on forms where the flag is observable: duplicate choice names
+    # (allow_choice_duplicates), double spaces + smart quotes (clean_text_values), the instanceID (omit_instanceID),
+    # a row that disappears (disabled).  Seed-independent; a dropped yes_no key gives a concrete workbook pair.
+    for pool in (spell.TRUE_SPELLINGS, spell.FALSE_SPELLINGS):
+        for v in pool[1:]:
+            for col in ("omit_instanceID", "allow_choice_duplicates", "clean_text_values", "add_none_option", "disabled"):
+                f1, f2 = base_form(), base_form()
+                for f, val in ((f1, pool[0]), (f2, v)):
+                    if col == "disabled":
+                        f["survey"][1][col] = val
+                    else:
+                        f["settings"][0][col] = val
+                    if col == "allow_choice_duplicates":
+                        f["choices"].append({"list_name": "l", "name": "a", "label": "A again"})
+                    if col == "clean_text_values":
+                        f["survey"][1]["label"] = "a  b ‘q’"
+                compare(ctx, spell_tx.init_orig(spell.wb_from_form(f1)), spell_tx.init_orig(spell.wb_from_form(f2)),
+                        [f"truth-yes_no:{col}:{pool[0]}->{v}"], "dict", tag="alias")
+                n += 1
     # sheet-name case x presence state of each optional sheet (with rows / header only) x file channel
     for sname, cols, row in (("settings", ["form_title", "form_id"], ["T", "fid"]), ("choices", ["list_name", "name", "label"], None),
                              ("entities", ["dataset", "label"], ["people", "concat(${t}, 'x')"]),
